@@ -341,8 +341,8 @@ def hals_objective(G, B, V, l1, l2):
 
 # ----------------------------------------------------------------------------- the runs
 # quick: profiled per kind (CPU s / case at Qops: cp 0.7, hals 0.4, ls 0.5, norm 0.8, reg 1.8, tk 2.5, cmtf 0.7, tkreg 1.9, tr 2.6, spec 0.4, proc 0.2, rep 0.5,
-# tks 4.4, modes 0.02): every kind is kept, the budget is dealt out over the (entry, variant, kind) groups starting at a seed-dependent group
-BUDGET = {"quick": dict(cp=48, hals=20, ls=16, norm=8, reg=4, tk=6, cmtf=5, tkreg=4, tr=5, spec=4, proc=4, rep=8, tks=2, modes=32, loop=72),
+# tks 4.4, modes 0.02; round 8 at load 30: reg 4.4, tkreg 3.7, tks 6.3 - reg / tkreg / tr one case fewer, still >= one per group): every kind is kept, the budget is dealt out over the (entry, variant, kind) groups starting at a seed-dependent group
+BUDGET = {"quick": dict(cp=48, hals=20, ls=16, norm=8, reg=3, tk=6, cmtf=5, tkreg=3, tr=4, spec=4, proc=4, rep=8, tks=2, modes=32, loop=72),
           # thorough: ~3x the quick budgets (estimated ~370 CPU-s of shards with the per-case costs above; the whole tier is meant to stay below ~12 CPU-min
           # at VERIF_NPROC=4 including the exact Print-Assumptions pass).  The Python predicates still judge every run of the (5x larger) thorough plan
           "thorough": dict(cp=140, hals=70, ls=60, norm=28, reg=14, tk=16, cmtf=16, tkreg=10, tr=10, spec=24, proc=24, rep=28, tks=5, modes=100, loop=150)}
